@@ -8,6 +8,15 @@ use bitcoin::{BlockHash, Txid};
 use crate::node::Verdict;
 use crate::obs::DbDump;
 
+/// Snapshot of the tower's two bounded look-ups (6-block locator cache, 100-block tx index).
+#[derive(Clone, Debug, Default)]
+pub struct IndexSnap {
+    pub cache_entries: Vec<(Vec<u8>, Txid)>,
+    pub cache_blocks: Vec<(BlockHash, usize, Option<usize>)>,
+    pub index_entries: Vec<(Txid, BlockHash)>,
+    pub index_blocks: Vec<(BlockHash, usize, Option<usize>)>,
+}
+
 #[derive(Clone, Debug)]
 pub enum Event {
     OpStart(usize),
@@ -21,9 +30,9 @@ pub enum Event {
     /// The listener chain starts handling a connected block (before the gatekeeper).
     BlockStart { hash: BlockHash, height: u32, txids: Vec<Txid> },
     /// The listener chain finished handling a connected block (after the responder); db state at that instant.
-    BlockEnd { hash: BlockHash, height: u32, db: Option<Box<DbDump>> },
+    BlockEnd { hash: BlockHash, height: u32, db: Option<Box<DbDump>>, idx: Option<Box<IndexSnap>> },
     DisconnectStart { hash: BlockHash, height: u32 },
-    DisconnectEnd { hash: BlockHash, height: u32, db: Option<Box<DbDump>> },
+    DisconnectEnd { hash: BlockHash, height: u32, db: Option<Box<DbDump>>, idx: Option<Box<IndexSnap>> },
     Crash { site: &'static str, n: u64 },
     Restart,
     Note(String),
